@@ -555,6 +555,17 @@ def s_vec_into_iter(ip, st, fr, name, args, c, site):
     return one(X.Iter(ref_to(v), I(0), ip.len_of(st, v), ('owned',)))
 
 
+@S('#as_iter')
+def s_as_iter(ip, st, fr, name, args, c, site):
+    r = args[0]
+    v = ip.load(st, r.cell, r.path)
+    if isinstance(v, X.Sym):
+        ip.store(st, r.cell, r.path, as_iter(ip, st, v))
+    elif isinstance(v, X.Adt) and v.path.endswith('ops::Range'):
+        ip.store(st, r.cell, r.path, X.Iter(None, v.xs[0], v.xs[1], ('range',)))
+    return one(X.UNIT)
+
+
 @S('std::iter::Iterator::copied', 'std::iter::Iterator::cloned')
 def s_copied(ip, st, fr, name, args, c, site):
     it = as_iter(ip, st, args[0])
@@ -732,6 +743,8 @@ def as_iter(ip, st, v):
     if isinstance(v, X.Sym):
         t = ('items', v.term)
         return X.Iter(ref_to(X.Sym(t, '[%s]' % item_type(v.ty))), I(0), T.typed(('len', t), 'usize'), ('owned',))
+    if isinstance(v, X.Adt) and v.path.endswith('ops::Range'):
+        return X.Iter(None, v.xs[0], v.xs[1], ('range',))
     raise X.Unanalysable('not an iterator: %r' % (v,))
 
 
